@@ -395,3 +395,17 @@ pub(crate) fn verif_add_response(
         Vec::new()
     }
 }
+
+#[cfg(simple_dns_verif)]
+/// verification hook: run add_response_to_resources with a discovery channel whose receiver was dropped
+pub(crate) fn verif_add_response_closed_channel(
+    packet: Packet,
+    service_name: &Name<'_>,
+    full_name: &Name<'_>,
+    owned_resources: &mut ResourceRecordManager,
+) {
+    let (sender, receiver) = std::sync::mpsc::channel();
+    drop(receiver);
+    let mut on_discovery = Some(sender);
+    add_response_to_resources(packet, service_name, full_name, owned_resources, &mut on_discovery);
+}
